@@ -23,6 +23,8 @@ def classify(res):
     by = {"lex.bisim": [], "lex.wfmodes": [], "lex.run": [], "other": []}
     for m in res["mismatches"]:
         op = m[1].split(" ", 1)[0]
+        if op == "lex.bisimng":
+            op = "lex.bisim"
         by.get(op, by["other"]).append(m)
     return by, hits
 
